@@ -178,6 +178,46 @@ Proof.
     rewrite S. apply LS. reflexivity.
 Qed.
 
+(* the value an index entry for this extent is read back with (load_value_from_disk): the whole
+   extent is re-read, checked against the entry (marker, key, value length, timestamp) and the
+   value bytes are taken at the header size *)
+Theorem read_value_returns_the_value img rest0 :
+  skipn (N.to_nat sector) img = chunk_blocks (encode_extent version sector r) (N.to_nat need) ++ rest0 ->
+  read_value version img (mkentry (r_key r) (r_ts r) (if has_expiry version then r_exp r else 0) vlen sector) = Some (r_value r).
+Proof.
+  intros Himg. destruct encode_shape as (tok & pad & Lt & ES & _ & _ & EL).
+  pose proof klen_small as KS.
+  pose proof (header_bytes_length version tok (r_key r) vlen (r_ts r) (r_exp r) Lt) as HL. fold hdr in HL.
+  unfold read_value. cbn [e_key e_vlen e_ts e_sector]. fold klen need.
+  rewrite Himg, firstn_app, chunk_blocks_length, Nat.sub_diag. cbn [firstn]. rewrite app_nil_r.
+  rewrite firstn_all2 by (rewrite chunk_blocks_length; lia).
+  rewrite concat_chunk_blocks by exact EL.
+  set (E := encode_extent version sector r) in *.
+  assert (VL : (length (r_value r) <= length (r_value r ++ pad))%nat) by (rewrite app_length; lia).
+  assert (LE : (hdr + length (r_value r) <= length E)%nat) by (rewrite ES, app_length, HL; lia).
+  assert (PH : parse_head version E = Some (Some (r_key r, vlen, r_ts r, if has_expiry version then r_exp r else 0))).
+  { rewrite ES. apply parse_header_bytes; [exact Lt|exact KS|unfold MAX_VALUE_SIZE in Hv; lia|exact Hts|exact Hexp]. }
+  assert (K4 : u16_at E 4 = klen) by (rewrite ES; apply header_klen; [exact Lt|exact KS]).
+  assert (M0 : u16_at E 0 = SECTOR_MARKER) by (rewrite ES; apply header_marker).
+  unfold parse_head in PH. rewrite K4 in PH. unfold klen in PH at 1 2 3 4 5. rewrite Nat2N.id in PH.
+  destruct (Nat.ltb_spec (length E) 6) as [L6|L6]; [unfold hdr in LE; lia|].
+  destruct (Nat.ltb_spec (length E) (6 + length (r_key r) + (if has_expiry version then 24 else 16))) as [L7|L7];
+    [unfold hdr in LE; destruct (has_expiry version); lia|].
+  rewrite !sub_opt_ok in PH by (unfold hdr in LE; destruct (has_expiry version); lia).
+  assert (S1 : sub E 6 (length (r_key r)) = r_key r /\ le_num (sub E (6 + length (r_key r)) 8) = vlen /\ le_num (sub E (6 + length (r_key r) + 8) 8) = r_ts r).
+  { destruct (has_expiry version); rewrite ?sub_opt_ok in PH by (unfold hdr in LE; lia); injection PH; intros; repeat split; assumption. }
+  destruct S1 as (S1 & S2 & S3).
+  unfold sector_holds. destruct (Nat.ltb_spec (length E) 6); [lia|]. rewrite M0, N.eqb_refl. cbn [negb].
+  assert (KN : N.to_nat klen = length (r_key r)) by (unfold klen; apply Nat2N.id).
+  rewrite K4, !KN. rewrite Nat.eqb_refl. cbn [negb].
+  destruct (Nat.ltb_spec (length E) (6 + length (r_key r) + 16)); [unfold hdr in LE; lia|].
+  rewrite S1, list_eqb_refl. unfold u64_at. rewrite S2, S3, !N.eqb_refl. cbn [andb].
+  assert (VN : N.to_nat vlen = length (r_value r)) by (unfold vlen; apply Nat2N.id).
+  rewrite <- hdr_is_header_size. rewrite Nat2N.id, !VN.
+  destruct (Nat.leb_spec (hdr + length (r_value r)) (length E)); [|lia].
+  f_equal. rewrite ES. rewrite sub_app_ge by lia. rewrite HL, Nat.sub_diag. apply sub_0_app. reflexivity.
+Qed.
+
 Variable c : rcfg.
 Variable total : N.
 Variable st : rstate.
